@@ -7,6 +7,7 @@ from fractions import Fraction
 from ..astutil import (call_name, calls_in, const_value, find_func, is_self_attr, names_in, parse_expr, parse_stmt,
                        replace_node)
 from ..domains import weak_orderings
+from ..astutil import inline_single_defs
 from ..cfg import CFG
 from ..dataflow import inline_env
 from ..astutil import subst_names
@@ -502,7 +503,7 @@ def _r3(ctx):
     tr = prog.func(MS + ":HaighDiagram.transform")
     d = [n for n in ast.walk(tr.node) if isinstance(n, ast.Dict)]
     if d:
-        m = {const_value(k): v for k, v in zip(d[0].keys, d[0].values)}
+        m = {const_value(k): inline_single_defs(tr.node, v) for k, v in zip(d[0].keys, d[0].values)}
         if "mean" in m:
             v = m["mean"]
 
